@@ -395,6 +395,9 @@ func TestResidues(t *testing.T) {
 			ln := hex.EncodeToString(h[:cb.Pol.Nonce])
 			rn := hex.EncodeToString(h2[:cb.Pol.Nonce])
 			for _, bk := range bodyKinds {
+				if chunk > 1<<20+2 && !ev.Thorough() && bk.Kind != "max" && bk.Kind != "max+1" {
+					continue // quick tier: only the two deciding bodies for the 2..16 MiB chunk sizes
+				}
 				c := bk
 				c.Policy, c.Mode, c.Chunk = cb.Pol.Frag, cb.Mode, chunk
 				c.Fill = int(h2[31])
@@ -412,7 +415,9 @@ func TestResidues(t *testing.T) {
 		}
 	}
 	rec.Extra("enumerated_chunk_size_x_combination_pairs", done)
-	rec.Extra("enumerated_chunk_sizes", len(chunks))
+	if sh == 0 {
+		rec.Extra("enumerated_chunk_sizes", len(chunks))
+	}
 }
 
 func genCase(t *rapid.T) caseT {
@@ -427,22 +432,23 @@ func genCase(t *rapid.T) caseT {
 			chunk = 8192
 		}
 	case k < 8: // around a block boundary
-		blocks := rapid.IntRange(8192/16, (1<<16)/16).Draw(t, "blocks")
-		if rapid.IntRange(0, 9).Draw(t, "far") == 0 {
-			blocks = rapid.IntRange((1<<16)/16, (1<<22)/16).Draw(t, "blocksFar")
+		kb := rapid.IntRange(13, 17).Draw(t, "blockBits")
+		if rapid.IntRange(0, 19).Draw(t, "far") == 0 {
+			kb = rapid.IntRange(18, 22).Draw(t, "blockBitsFar")
 		}
+		blocks := (1<<kb)/16 + rapid.IntRange(0, (1<<kb)/16).Draw(t, "blocks")
 		chunk = headerSize + tokenSize + blocks*16 + rapid.IntRange(-1, 1).Draw(t, "off")
-	default: // magnitude first, then the value
-		var hi int
-		switch m := rapid.IntRange(0, 19).Draw(t, "mag"); {
-		case m < 11:
-			hi = 1 << 16
-		case m < 18:
-			hi = 1 << 20
+	default: // magnitude first (rapid's integer ranges favour small values), then the value
+		var k int
+		switch m := rapid.IntRange(0, 99).Draw(t, "mag"); {
+		case m < 50:
+			k = rapid.IntRange(13, 15).Draw(t, "bits")
+		case m < ev.Pick(94, 85):
+			k = rapid.IntRange(16, 19).Draw(t, "bits")
 		default:
-			hi = 1 << 24
+			k = rapid.IntRange(20, 23).Draw(t, "bits")
 		}
-		chunk = rapid.IntRange(8192, hi).Draw(t, "chunk")
+		chunk = 1<<k + rapid.IntRange(0, 1<<k).Draw(t, "chunkLow")
 	}
 	if chunk < 8192 {
 		chunk = 8192
